@@ -27,7 +27,7 @@ pub const DEF: PropDef = PropDef {
     rule: "Cases are (endianness, dispatch mechanism, code named, identifier, preceding bits, value). The identifier space is enumerated \
 completely: all 62 named constants of code_consts (51 distinct identifiers) through ConstCode (inherent, dynamic and static trait paths); every \
 Codes variant with parameters 0..=12, 16, 63 (Golomb also large moduli) through Codes (inherent/dynamic/static), FuncCodeReader/Writer/Len, \
-FactoryFuncCodeReader::new + get() over a harness factory, and CodesStatsWrapper (dynamic and static paths); x a value grid x offsets {0,3,13} x \
+FactoryFuncCodeReader::new + get() over a harness factory, and CodesStatsWrapper (dynamic and static paths); reads are done over a reader with 32-bit words and, for codes whose own parameterless method consults no decoding table, also over a reader with 8-bit words; x a value grid x offsets {0,3,13} x \
 both endiannesses. The mapping identifier -> (family, parameter) is written by hand from the constant names. Oracle: bytes written through the \
 dispatcher == bytes written by the direct trait method == reference encoding; returned length == reference length; value and bit position read \
 through the dispatcher from the reference stream == value written / end of codeword, and the following bits are intact; length object == \
@@ -178,6 +178,28 @@ pub fn check_case(c: &Case, _env: &Env) -> CheckResult {
                     fail!(format!("{}/{}/read/err", how, fam), "read through {:?} as {:?}: {}", c.how, c.code, er);
                 }
                 o.label("read_unsupported_by_mechanism");
+            }
+        }
+        // the same read over a reader with 8-bit words, for codes whose own parameterless method consults no
+        // decoding table (an 8-bit reader is outside the domain of every table, D7: a dispatcher that silently
+        // switches to a table-driven variant is not "the same decoding")
+        if src == "reference" && !matches!(c.code, Code::Delta | Code::Zeta(3)) {
+            match d_read8(e, c.how, c.code, id, pre, bytes) {
+                Ok(obs) => {
+                    if obs.value != c.v || obs.pos != (pre + l) as u64 || obs.next9 != 0x1A5 {
+                        fail!(
+                            format!("{}/{}/read8", how, fam),
+                            "read over 8-bit words through {:?} as {:?} (id {:?}, {}, stream {}): value {} pos {} next {:#x}; expected value {} pos {} next 0x1a5",
+                            c.how, c.code, c.id, e.name(), hex(bytes), obs.value, obs.pos, obs.next9, c.v, pre + l
+                        );
+                    }
+                    o.label("read_over_8_bit_words");
+                }
+                Err(er) => {
+                    if !unsupported_ok(&er)? {
+                        fail!(format!("{}/{}/read8/err", how, fam), "read over 8-bit words through {:?} as {:?}: {}", c.how, c.code, er);
+                    }
+                }
             }
         }
     }
